@@ -959,7 +959,8 @@ func (cx *SpecCtx) evalCall(x *ECall) sval {
 				d := cx.stableTerm("(Array "+g.sc.sortOf(mt.Key())+" Bool)", fmt.Sprintf("(select %s %s)", g.get(cx.st, dom), v.t))
 				t, facts := g.sc.mapLen(g.sc.sortOf(mt.Key()), d)
 				cx.addAxioms(facts)
-				return sval{t: t, kind: "int"}
+				// a nil map has length 0, as in the code
+				return sval{t: fmt.Sprintf("(ite (= %s 0) 0 %s)", v.t, t), kind: "int"}
 			}
 		}
 		cx.fail("len of %s", x.Args[0])
